@@ -82,6 +82,64 @@ impl PipeSpec {
     }
 }
 
+/// what a consumer sees of one lifecycle table entry
+#[derive(Clone, Debug, PartialEq)]
+struct LcView {
+    id: u32,
+    ecu: String,
+    nr: u32,
+    start: i64,
+    stop: i64,
+    resume: bool,
+    refresh_idx: u32,
+}
+fn lc_view(lc: &adlt::lifecycle::Lifecycle) -> LcView {
+    let rel = |us: u64| -> i64 { if us == u64::MAX { -1 } else { (us as i64 - BASE_US as i64) / 1000 } };
+    LcView { id: lc.id(), ecu: format!("{}", lc.ecu), nr: lc.nr_msgs, start: rel(lc.start_time), stop: rel(lc.end_time()), resume: lc.is_resume(), refresh_idx: lc.lcs_w_refresh_idx }
+}
+fn view_json(v: &LcView) -> Value {
+    json!({"id":v.id,"ecu":v.ecu,"nr":v.nr,"start":v.start,"stop":v.stop,"resume":v.resume})
+}
+
+/// table observer: follows the lifecycle table incrementally exactly as src/bin/adlt/remote.rs process_file_context does
+/// (remember the largest lcs_w_refresh_idx seen; on every poll every entry with a larger one is new / updated) and folds
+/// what it gets. `snaps` (optional) keeps every distinct table content seen, for the refresh-index binding.
+#[derive(Default)]
+struct Observer {
+    last: u32,
+    fold: std::collections::BTreeMap<u32, LcView>,
+    polls: u64,
+    record: bool,
+    snaps: Vec<Vec<LcView>>,
+}
+impl Observer {
+    fn poll(&mut self, lcs_r: &LcsR) {
+        if let Some(rd) = lcs_r.read() {
+            self.polls += 1;
+            let mut new_last = self.last;
+            let mut snap = Vec::new();
+            for (_id, b) in &rd {
+                if let Some(lc) = b.get_one() {
+                    if lc.lcs_w_refresh_idx > self.last {
+                        new_last = new_last.max(lc.lcs_w_refresh_idx);
+                        self.fold.insert(lc.id(), lc_view(lc));
+                    }
+                    if self.record {
+                        snap.push(lc_view(lc));
+                    }
+                }
+            }
+            self.last = new_last;
+            if self.record {
+                snap.sort_by_key(|v| v.id);
+                if self.snaps.last() != Some(&snap) && self.snaps.len() < 2000 {
+                    self.snaps.push(snap);
+                }
+            }
+        }
+    }
+}
+
 #[derive(Clone, Debug, Default)]
 struct Pacing {
     p_stalls: Vec<(usize, u64)>, // (before sending message i, ms)
@@ -89,6 +147,8 @@ struct Pacing {
     p_each_us: u64,
     c_each_us: u64,
     drop_at: Option<usize>,
+    poll_every: usize,   // the consumer polls the lifecycle table every poll_every messages (0 = every message)
+    obs_sleep_us: u64,   // pacing of the observer thread (0 = 500 us)
 }
 
 #[derive(Debug)]
@@ -106,6 +166,8 @@ struct RunOut {
     panics: Vec<(String, String)>,
     table: Option<Vec<Value>>,
     full_hits: u64,
+    folds: Vec<(String, u64, Vec<Value>)>, // observer, number of polls, folded table (after one final poll)
+    poll_seq: Vec<Value>,                  // distinct (max refresh idx, content hash) pairs seen by the observer thread
 }
 
 fn msg_hash(m: &DltMessage) -> u32 {
@@ -245,6 +307,23 @@ fn run_pipeline(spec: &PipeSpec, msgs: &[DltMessage], caps: &[usize], pacing: &P
         drop(tx_for_parse_thread);
     }));
     drop(done_tx);
+    // table observers: the consumer itself (polls while receiving) and a separate thread at its own pace
+    let stop_obs = Arc::new(std::sync::atomic::AtomicBool::new(false));
+    let obs_thread = {
+        let lcs_r = lcs_r.clone();
+        let stop = stop_obs.clone();
+        let nap = Duration::from_micros(if pacing.obs_sleep_us == 0 { 500 } else { pacing.obs_sleep_us });
+        std::thread::spawn(move || {
+            let mut o = Observer { record: true, ..Default::default() };
+            while !stop.load(Ordering::SeqCst) {
+                o.poll(&lcs_r);
+                std::thread::sleep(nap);
+            }
+            o
+        })
+    };
+    let mut obs_consumer = Observer::default();
+    let poll_every = pacing.poll_every.max(1);
     // consumer = this thread
     let mut recv: Vec<(i64, u32, u32)> = Vec::new();
     let mut rx_opt = Some(t4_input);
@@ -259,6 +338,9 @@ fn run_pipeline(spec: &PipeSpec, msgs: &[DltMessage], caps: &[usize], pacing: &P
             Ok(m) => {
                 let idx = if m.payload.len() >= 4 { u32::from_le_bytes(m.payload[0..4].try_into().unwrap()) as i64 } else { -1 };
                 recv.push((idx, m.lifecycle, msg_hash(&m)));
+                if recv.len() % poll_every == 0 {
+                    obs_consumer.poll(&lcs_r);
+                }
                 for (at, ms) in &pacing.c_stalls {
                     if *at == recv.len() {
                         std::thread::sleep(Duration::from_millis(*ms));
@@ -299,18 +381,45 @@ fn run_pipeline(spec: &PipeSpec, msgs: &[DltMessage], caps: &[usize], pacing: &P
     joined.sort();
     let full_hits = adlt::verif::SEND_FULL_HITS.load(Ordering::SeqCst) - full_before;
     let mut table = None;
+    let mut folds = Vec::new();
+    let mut poll_seq = Vec::new();
+    stop_obs.store(true, Ordering::SeqCst);
+    let obs_t = obs_thread.join().ok();
     if joined.iter().any(|s| s == "lc") {
         if let Ok(Some(lcs_w)) = lc_thread.join() {
+            let mut final_views: Vec<LcView> = Vec::new();
             if let Some(rd) = lcs_r.read() {
-                let mut t: Vec<(u32, Value)> = Vec::new();
-                for (id, b) in &rd {
+                for (_id, b) in &rd {
                     if let Some(lc) = b.get_one() {
-                        let rel = |us: u64| -> i64 { if us == u64::MAX { -1 } else { (us as i64 - BASE_US as i64) / 1000 } };
-                        t.push((*id, json!({"id":id,"ecu":format!("{}", lc.ecu),"nr":lc.nr_msgs,"start":rel(lc.start_time),"stop":rel(lc.end_time())})));
+                        final_views.push(lc_view(lc));
                     }
                 }
-                t.sort_by_key(|e| e.0);
-                table = Some(t.into_iter().map(|e| e.1).collect());
+                final_views.sort_by_key(|v| v.id);
+                table = Some(final_views.iter().map(view_json).collect());
+            }
+            // one final poll of every observer (the lifecycle stage has returned), then what each of them holds
+            let mut observers = vec![("consumer".to_string(), obs_consumer)];
+            if let Some(o) = obs_t {
+                observers.push(("thread".to_string(), o));
+            }
+            for (who, o) in observers.iter_mut() {
+                o.poll(&lcs_r);
+                folds.push((who.clone(), o.polls, o.fold.values().map(view_json).collect()));
+                if o.record {
+                    // refresh-index binding: table contents seen (restricted to the lifecycles of the final table - removed
+                    // entries are never withdrawn under the incremental rule, that is another area's finding) with the
+                    // largest refresh index they carry
+                    let ids: Vec<u32> = final_views.iter().map(|v| v.id).collect();
+                    let mut lastp: Option<(u32, u32)> = None;
+                    for snap in &o.snaps {
+                        let r: Vec<&LcView> = snap.iter().filter(|v| ids.contains(&v.id)).collect();
+                        let p = (r.iter().map(|v| v.refresh_idx).max().unwrap_or(0), hash31(format!("{:?}", r).as_bytes()));
+                        if lastp != Some(p) {
+                            poll_seq.push(json!({"idx":p.0,"h":p.1}));
+                            lastp = Some(p);
+                        }
+                    }
+                }
             }
             drop(lcs_w);
         }
@@ -320,7 +429,7 @@ fn run_pipeline(spec: &PipeSpec, msgs: &[DltMessage], caps: &[usize], pacing: &P
             let _ = h.join();
         }
     }
-    RunOut { recv, ended, joined, timeouts, panics, table, full_hits }
+    RunOut { recv, ended, joined, timeouts, panics, table, full_hits, folds, poll_seq }
 }
 
 // ------------------------------------------------------------------------------------------------ streams
@@ -356,6 +465,34 @@ fn gen_stream(rng: &mut Rng, n: usize, long_span: bool) -> Vec<DltMessage> {
         v.push(m);
     }
     v
+}
+
+/// rewrite the tail of a stream: a new ECU appears shortly before the end (its lifecycle is still unconfirmed when the
+/// input ends) while the other ECUs keep logging - the end-of-stream publish and the final refresh then both matter
+fn add_late_ecu(rng: &mut Rng, msgs: &mut [DltMessage]) {
+    let n = msgs.len();
+    if n < 8 {
+        return;
+    }
+    let tail = (n / 6).clamp(3, 25);
+    let s = n - tail;
+    let mut rx_ms = msgs[s - 1].reception_time_us / 1000;
+    let mut boot_d: Option<u64> = None;
+    for (i, m) in msgs.iter_mut().enumerate().skip(s) {
+        rx_ms += rng.range(50, 800);
+        let mut off = m.reception_time_us / 1000 - (m.timestamp_dms as u64) / 10; // boot time (+ jitter) of the message's ECU
+        if off > rx_ms {
+            off = rx_ms - 3000;
+        }
+        if i == s || rng.chance(1, 2) {
+            let b = *boot_d.get_or_insert(rx_ms - 4000);
+            m.ecu = char4("ECUD");
+            m.timestamp_dms = ((rx_ms - b - rng.below(30)) * 10) as u32;
+        } else {
+            m.timestamp_dms = ((rx_ms - off) * 10) as u32;
+        }
+        m.reception_time_us = rx_ms * 1000;
+    }
 }
 
 fn spec_from_kinds(kinds: &[String], remote: bool) -> PipeSpec {
@@ -407,7 +544,7 @@ fn do_case(t: &mut Trace, st: &mut Stats, case: u64, spec: &PipeSpec, msgs: &[Dl
     let pacing = &pacing;
     let r_recv = r.recv.clone();
     let refv: Vec<Value> = r.recv.iter().map(|(i, l, h)| json!({"idx":i,"lc":l,"hash":h})).collect();
-    t.ev(json!({"ev":"reset","case":case,"hdr":{"sorted":spec.sort,"stages":spec.stages(),"ref":refv,"reftable":r.table.unwrap(),
+    t.ev(json!({"ev":"reset","case":case,"hdr":{"sorted":spec.sort,"stages":spec.stages(),"observers":["consumer","thread"],"late_ecu":msgs.iter().any(|m| m.ecu == char4("ECUD")),"ref":refv,"reftable":r.table.unwrap(),
         "caps":caps,"drop_at":pacing.drop_at.map(|x| x as i64).unwrap_or(-1),"n_in":msgs.len(),
         "max_p_stall_ms":pacing.p_stalls.iter().map(|x| x.1).max().unwrap_or(0),"max_c_stall_ms":pacing.c_stalls.iter().map(|x| x.1).max().unwrap_or(0),
         "spec":format!("{:?}", spec),"pacing":format!("{:?}", pacing),"info":info}}));
@@ -429,6 +566,10 @@ fn do_case(t: &mut Trace, st: &mut Stats, case: u64, spec: &PipeSpec, msgs: &[Dl
     if matches!(o.ended, Ended::Eos) {
         if let Some(tb) = &o.table {
             t.ev(json!({"ev":"table","t":tb}));
+            for (who, polls, fold) in &o.folds {
+                t.ev(json!({"ev":"lc_fold","who":who,"polls":polls,"fold":fold}));
+            }
+            t.ev(json!({"ev":"lc_polls","seq":o.poll_seq}));
         }
     }
     for s in &o.joined {
@@ -481,11 +622,15 @@ fn main() {
                 caps.remove(2 + (spec.plugin > 0) as usize);
             }
             let long_span = rng.chance(1, 2);
-            let msgs = gen_stream(&mut rng, scn_len, long_span);
+            let mut msgs = gen_stream(&mut rng, scn_len, long_span);
+            let mut rng2 = Rng::new(seed.wrapping_mul(31).wrapping_add(cno) ^ 0x1A7E);
+            if rng2.chance(1, 2) {
+                add_late_ecu(&mut rng2, &mut msgs);
+            }
             // abstract positions (0..nmsgs of the model) are mapped proportionally onto the real stream
             let nm = scn["nmsgs"].as_u64().unwrap().max(1) as usize;
             let nout = scn["nout"].as_u64().unwrap().max(1) as usize;
-            let mut pacing = Pacing::default();
+            let mut pacing = Pacing { poll_every: *rng2.pick(&[1usize, 1, 3, 7]), obs_sleep_us: *rng2.pick(&[200u64, 500, 3000]), ..Default::default() };
             let ps = scn["pstall"].as_u64().unwrap_or(0) as usize;
             if ps > 0 {
                 pacing.p_stalls.push(((ps - 1) * msgs.len() / nm, 40));
@@ -520,10 +665,14 @@ fn main() {
         }
         let n = if rng.chance(1, 10) { rng.below(4) as usize } else { rng.range(10, max_len as u64) as usize };
         let long_span = rng.chance(2, 3);
-        let msgs = gen_stream(&mut rng, n, long_span);
+        let mut msgs = gen_stream(&mut rng, n, long_span);
+        let mut rng2 = Rng::new(seed.wrapping_mul(37).wrapping_add(cno) ^ 0x1A7E);
+        if rng2.chance(1, 3) {
+            add_late_ecu(&mut rng2, &mut msgs);
+        }
         let small = rng.chance(2, 3); // mostly the capacities where the Full branch is the normal case
         let caps: Vec<usize> = (0..spec.nchan()).map(|_| if small { *rng.pick(&cap_alphabet[0..3]) } else { *rng.pick(&cap_alphabet) }).collect();
-        let mut pacing = Pacing::default();
+        let mut pacing = Pacing { poll_every: *rng2.pick(&[1usize, 1, 3, 7]), obs_sleep_us: *rng2.pick(&[200u64, 500, 3000]), ..Default::default() };
         for _ in 0..rng.below(4) {
             pacing.p_stalls.push((rng.below(n.max(1) as u64) as usize, rng.range(5, 60)));
         }
@@ -577,9 +726,13 @@ fn main() {
             11 => 3,
             _ => 0,
         };
-        let msgs = gen_stream(&mut rng, n, variant != 1);
+        let mut msgs = gen_stream(&mut rng, n, variant != 1);
+        let mut rng2 = Rng::new(seed.wrapping_mul(41).wrapping_add(cno) ^ 0x1A7E);
+        if r % 2 == 1 {
+            add_late_ecu(&mut rng2, &mut msgs);
+        }
         let caps: Vec<usize> = (0..spec.nchan()).map(|_| *rng.pick(&cap_alphabet[0..3])).collect();
-        let mut pacing = Pacing::default();
+        let mut pacing = Pacing { poll_every: *rng2.pick(&[1usize, 3]), obs_sleep_us: *rng2.pick(&[200u64, 3000]), ..Default::default() };
         let at = rng.range((n / 4) as u64, (3 * n / 4) as u64) as usize;
         match variant {
             2 => pacing.c_stalls.push((at.max(1) / 2 + 1, rng.range(2600, 3200))),
